@@ -235,7 +235,7 @@ class ADD:
         result = self if inplace else copy.deepcopy(self)
         idx = self._units_index[unit]
         result.units.pop(idx)
-        del result._units_index[unit]
+        result._units_index = dict((u, i) for (i, u) in enumerate(result.units))
         if idx > 0:
             pidx = idx - 1
             for i in range(self.diameter):
